@@ -104,7 +104,7 @@ pub fn c13_setup_sender_authpsk() {
 macro_rules! single_shot_open_nopanic {
     ($name:ident, $wire:expr) => {
         #[kani::proof]
-        #[kani::unwind(34)]
+        #[kani::unwind(20)]
         #[kani::stub(zeroize::optimization_barrier, noop_barrier)]
         pub fn $name() {
             const W: usize = $wire;
